@@ -109,6 +109,18 @@ def templates():
                 {'funcs': {'S': S},
                  'roots': [[['sb', 'S', {'catch': True, 'kwargs': {'a': 1, 'b': 2}}],
                             ['sb', 'S', {'catch': True, 'kwargs': {'b': 2, 'a': 1.0}}]]]}))
+    # keys that tie under the usual normalisations (case, NFC/NFD, padding, numeric spelling), every pair,
+    # both insertion orders, as keyword arguments and inside a positional dict
+    import itertools as _it
+    import unicodedata as _ud
+    pool = ['a', 'A', _ud.normalize('NFC', 'é'), _ud.normalize('NFD', 'é'), '1', '01', '', ' ']
+    for k1, k2 in _it.combinations(pool, 2):
+        out.append(('sb-dup-kwargs-order-%r-%r' % (k1, k2),
+                    {'funcs': {'S': S},
+                     'roots': [[['sb', 'S', {'catch': True, 'kwargs': {k1: 1, k2: 2}}],
+                                ['sb', 'S', {'catch': True, 'kwargs': {k2: 2, k1: 1}}],
+                                ['sb', 'S', {'catch': True, 'args': [{k1: 1, k2: [2]}]}],
+                                ['sb', 'S', {'catch': True, 'args': [{k2: [2], k1: 1}]}]]]}))
     out.append(('sb-dup-inside-reused-subtree',
                 {'funcs': {'S': S, 'P': {'kind': 'sb', 'idx': 1, 'body': [['sb', 'S', {'catch': True, 'args': [1]}],
                                                                           ['q', 'exists', 'in0', 'M']]}},
